@@ -1,8 +1,100 @@
-/- Driver operations of the Future model (stub until the model lands). -/
+/-
+  Driver operations of the Future model (C20).
+
+  "future.transform": {"tree": T} → {"ok": T', "noPipe": bool, "noConstructs": bool, "annot": bool}
+     T' = tree of `transform Gen.futureGenerics T`.
+  "future.spec": {} → the constants the harness mirrors (union name, typing alias table, live table).
+
+  Tree encoding (mirrored by harness/props/c20.py `enc_tree`):
+    ["N", id]  ["A", value, attr]  ["S", value, slice]  ["T", [elts]]  ["L", [elts]]
+    ["B", op, left, right]  ["U", op, operand]
+    ["C", "s", str] | ["C", "i", decimal] | ["C", "n"] | ["C", "e"] | ["C", "b", bool] | ["C", "o", repr]
+    ["K", func, [args], [keywords]]  ["O", tag, [children]]
+-/
 import TypelibModel.Drv.Core
+import TypelibModel.Model.Future
+import TypelibModel.Gen.Future
 open Lean
 namespace Typelib.Drv
+open Typelib.Future
 
-def handleFuture (_st : St) (_op : String) (_j : Json) : Option (Except String (St × Json)) := none
+def futOpOfString : String → Except String Op
+  | "Add" => .ok .add | "Sub" => .ok .sub | "Mult" => .ok .mult | "MatMult" => .ok .matmult
+  | "Div" => .ok .div | "Mod" => .ok .mod | "Pow" => .ok .pow | "LShift" => .ok .lshift
+  | "RShift" => .ok .rshift | "BitOr" => .ok .bitor | "BitXor" => .ok .bitxor | "BitAnd" => .ok .bitand
+  | "FloorDiv" => .ok .floordiv
+  | s => .error s!"operator {s}"
+
+def futOpToString : Op → String
+  | .add => "Add" | .sub => "Sub" | .mult => "Mult" | .matmult => "MatMult" | .div => "Div" | .mod => "Mod"
+  | .pow => "Pow" | .lshift => "LShift" | .rshift => "RShift" | .bitor => "BitOr" | .bitxor => "BitXor"
+  | .bitand => "BitAnd" | .floordiv => "FloorDiv"
+
+def futUOpOfString : String → Except String UOp
+  | "Invert" => .ok .invert | "Not" => .ok .not | "UAdd" => .ok .uadd | "USub" => .ok .usub
+  | s => .error s!"unary operator {s}"
+
+def futUOpToString : UOp → String
+  | .invert => "Invert" | .not => "Not" | .uadd => "UAdd" | .usub => "USub"
+
+partial def futExprOfJson (j : Json) : Except String Expr :=
+  match j with
+  | .arr a =>
+    match a.toList with
+    | [.str "N", .str id] => .ok (.name (S id))
+    | [.str "A", v, .str attr] => do pure (.attribute (← futExprOfJson v) (S attr))
+    | [.str "S", v, s] => do pure (.subscript (← futExprOfJson v) (← futExprOfJson s))
+    | [.str "T", .arr es] => do pure (.tuple (← es.toList.mapM futExprOfJson))
+    | [.str "L", .arr es] => do pure (.list (← es.toList.mapM futExprOfJson))
+    | [.str "B", .str op, l, r] => do pure (.binop (← futOpOfString op) (← futExprOfJson l) (← futExprOfJson r))
+    | [.str "U", .str op, e] => do pure (.unaryop (← futUOpOfString op) (← futExprOfJson e))
+    | [.str "C", .str "s", .str s] => .ok (.constant (.str (S s)))
+    | [.str "C", .str "i", .str d] =>
+      match d.toInt? with
+      | some i => .ok (.constant (.int i))
+      | none => .error s!"bad int {d}"
+    | [.str "C", .str "n"] => .ok (.constant .none)
+    | [.str "C", .str "e"] => .ok (.constant .ellipsis)
+    | [.str "C", .str "b", .bool b] => .ok (.constant (.bool b))
+    | [.str "C", .str "o", .str r] => .ok (.constant (.other (S r)))
+    | [.str "K", f, .arr as, .arr ks] => do
+      pure (.call (← futExprOfJson f) (← as.toList.mapM futExprOfJson) (← ks.toList.mapM futExprOfJson))
+    | [.str "O", .str tag, .arr cs] => do pure (.other (S tag) (← cs.toList.mapM futExprOfJson))
+    | _ => .error s!"bad tree {j}"
+  | _ => .error s!"bad tree {j}"
+
+partial def futExprToJson : Expr → Json
+  | .name id => .arr #[.str "N", .str (U id)]
+  | .attribute v a => .arr #[.str "A", futExprToJson v, .str (U a)]
+  | .subscript v s => .arr #[.str "S", futExprToJson v, futExprToJson s]
+  | .tuple es => .arr #[.str "T", .arr (es.map futExprToJson).toArray]
+  | .list es => .arr #[.str "L", .arr (es.map futExprToJson).toArray]
+  | .binop op l r => .arr #[.str "B", .str (futOpToString op), futExprToJson l, futExprToJson r]
+  | .unaryop op e => .arr #[.str "U", .str (futUOpToString op), futExprToJson e]
+  | .constant (.str s) => .arr #[.str "C", .str "s", .str (U s)]
+  | .constant (.int i) => .arr #[.str "C", .str "i", .str (toString i)]
+  | .constant .none => .arr #[.str "C", .str "n"]
+  | .constant .ellipsis => .arr #[.str "C", .str "e"]
+  | .constant (.bool b) => .arr #[.str "C", .str "b", .bool b]
+  | .constant (.other r) => .arr #[.str "C", .str "o", .str (U r)]
+  | .call f as ks => .arr #[.str "K", futExprToJson f, .arr (as.map futExprToJson).toArray, .arr (ks.map futExprToJson).toArray]
+  | .other tag cs => .arr #[.str "O", .str (U tag), .arr (cs.map futExprToJson).toArray]
+
+def futLiveTable : Table := Typelib.Gen.futureGenerics.map (fun p => (p.1.toList, p.2.toList))
+
+def futTableToJson (g : Table) : Json := .arr (g.map fun kv => Json.arr #[.str (U kv.1), .str (U kv.2)]).toArray
+
+def handleFuture (st : St) (op : String) (j : Json) : Option (Except String (St × Json)) :=
+  match op with
+  | "future.transform" => some do
+    let e ← futExprOfJson (← j.getObjVal? "tree")
+    let t := transform futLiveTable e
+    pure (st, Json.mkObj [("ok", futExprToJson t), ("noPipe", .bool (noPipe t)),
+                          ("noConstructs", .bool (noConstructs futLiveTable e)), ("annot", .bool (annot e)),
+                          ("wf", .bool (wf e))])
+  | "future.spec" => some do
+    pure (st, Json.mkObj [("union", .str (U unionName)), ("table", futTableToJson futLiveTable),
+                          ("typingAlias", futTableToJson typingAlias)])
+  | _ => none
 
 end Typelib.Drv
